@@ -61,20 +61,25 @@
 #endif
 #define TPEV_EP_PRIVATE	((uint32_t)(EPOLLWAKEUP | EPOLLONESHOT | EPOLLET | EPOLLEXCLUSIVE))
 
-/* ---- kernel model state ---- */
-struct tpev_kent_s { int used, epfd, fd; uint32_t events; void *ptr; };
-struct tpev_tfd_s { int open, fd, is_pidfd, clock, cflags, set_flags, set_cnt; struct itimerspec spec; };
-static struct tpev_kent_s tpev_k[TPEV_KSLOTS];
-static struct tpev_tfd_s tpev_t[TPEV_TSLOTS];
+/* ---- kernel model state ----
+ * Struct-of-arrays on purpose: writes to an array of structs at a solver-dependent index (e.g. the log slot after a
+ * call whose number of system calls depends on the path) cost CBMC ~4x more variables than scalar arrays [measured]. */
+static int tpev_k_used[TPEV_KSLOTS], tpev_k_epfd[TPEV_KSLOTS], tpev_k_fd[TPEV_KSLOTS];	/* epoll registrations */
+static uint32_t tpev_k_events[TPEV_KSLOTS];
+static void *tpev_k_ptr[TPEV_KSLOTS];
+static int tpev_t_open[TPEV_TSLOTS], tpev_t_fd[TPEV_TSLOTS], tpev_t_is_pidfd[TPEV_TSLOTS], tpev_t_clock[TPEV_TSLOTS],
+    tpev_t_cflags[TPEV_TSLOTS], tpev_t_set_flags[TPEV_TSLOTS], tpev_t_set_cnt[TPEV_TSLOTS];	/* timerfd / pidfd descriptors */
+static int64_t tpev_t_val_sec[TPEV_TSLOTS], tpev_t_val_nsec[TPEV_TSLOTS], tpev_t_int_sec[TPEV_TSLOTS], tpev_t_int_nsec[TPEV_TSLOTS];
 static int tpev_user_fd[4] = { -1, -1, -1, -1 };	/* descriptors the "application" holds open (idents) */
 
 /* ---- call logs ---- */
-struct tpev_ctl_log_s { int epfd, op, fd, ret, err; uint32_t events; void *ptr; };
-struct tpev_set_log_s { int fd, flags, ret; struct itimerspec v; int has_old; };
-struct tpev_cre_log_s { int is_pidfd, clock, flags, ret; long pid; };
-static struct tpev_ctl_log_s tpev_log_ctl[TPEV_NCTL];
-static struct tpev_set_log_s tpev_log_set[TPEV_NSET];
-static struct tpev_cre_log_s tpev_log_cre[TPEV_NCRE];
+static int tpev_lc_epfd[TPEV_NCTL], tpev_lc_op[TPEV_NCTL], tpev_lc_fd[TPEV_NCTL], tpev_lc_ret[TPEV_NCTL], tpev_lc_err[TPEV_NCTL];
+static uint32_t tpev_lc_events[TPEV_NCTL];
+static void *tpev_lc_ptr[TPEV_NCTL];
+static int tpev_ls_fd[TPEV_NSET], tpev_ls_flags[TPEV_NSET], tpev_ls_ret[TPEV_NSET], tpev_ls_has_old[TPEV_NSET];
+static int64_t tpev_ls_val_sec[TPEV_NSET], tpev_ls_val_nsec[TPEV_NSET], tpev_ls_int_sec[TPEV_NSET], tpev_ls_int_nsec[TPEV_NSET];
+static int tpev_lcre_is_pidfd[TPEV_NCRE], tpev_lcre_clock[TPEV_NCRE], tpev_lcre_flags[TPEV_NCRE], tpev_lcre_ret[TPEV_NCRE];
+static long tpev_lcre_pid[TPEV_NCRE];
 static int tpev_log_close[TPEV_NCLOSE];
 static int tpev_n_ctl, tpev_n_set, tpev_n_cre, tpev_n_close, tpev_n_wait, tpev_n_gso, tpev_n_rd, tpev_n_wp,
     tpev_n_fcntl, tpev_n_sso, tpev_n_waitcalls;
@@ -88,12 +93,12 @@ static void tpev_on_wait_exhausted(void);	/* defined below, after threadpool.c: 
 
 static int tpev_k_find(int epfd, int fd) {
 	for (int i = 0; i < TPEV_KSLOTS; i++)
-		if (tpev_k[i].used && tpev_k[i].epfd == epfd && tpev_k[i].fd == fd) return (i);
+		if (tpev_k_used[i] && tpev_k_epfd[i] == epfd && tpev_k_fd[i] == fd) return (i);
 	return (-1);
 }
 static int tpev_t_find(int fd) {	/* open timerfd/pidfd with this number */
 	for (int i = 0; i < TPEV_TSLOTS; i++)
-		if (tpev_t[i].open && tpev_t[i].fd == fd) return (i);
+		if (tpev_t_open[i] && tpev_t_fd[i] == fd) return (i);
 	return (-1);
 }
 static int tpev_fd_in_use(int fd) {
@@ -107,8 +112,8 @@ static int v_epoll_ctl(int epfd, int op, int fd, struct epoll_event *ev) {
 	int k = tpev_n_ctl++;
 	V_ASSERT(k < TPEV_NCTL, "call budget: epoll_ctl");
 	if (k >= TPEV_NCTL) exit(5);
-	struct tpev_ctl_log_s *l = &tpev_log_ctl[k];
-	l->epfd = epfd; l->op = op; l->fd = fd; l->events = ev ? ev->events : 0; l->ptr = ev ? ev->data.ptr : NULL;
+	tpev_lc_epfd[k] = epfd; tpev_lc_op[k] = op; tpev_lc_fd[k] = fd;
+	tpev_lc_events[k] = ev ? ev->events : 0; tpev_lc_ptr[k] = ev ? ev->data.ptr : NULL;
 	int inj = TPEV_IN.ctl_err[k], s, e = 0;
 	if (inj != 0) {
 		V_ASSUME(inj > 0 && inj < 4096 && inj != EEXIST && inj != ENOENT);
@@ -120,25 +125,25 @@ static int v_epoll_ctl(int epfd, int op, int fd, struct epoll_event *ev) {
 		switch (op) {
 		case EPOLL_CTL_ADD:
 			if (s >= 0) { e = EEXIST; break; }
-			for (s = 0; s < TPEV_KSLOTS && tpev_k[s].used; s++) ;
+			for (s = 0; s < TPEV_KSLOTS && tpev_k_used[s]; s++) ;
 			V_ASSERT(s < TPEV_KSLOTS, "call budget: epoll registrations");
 			if (s >= TPEV_KSLOTS) exit(5);
-			tpev_k[s].used = 1; tpev_k[s].epfd = epfd; tpev_k[s].fd = fd;
-			tpev_k[s].events = ev->events | EPOLLERR | EPOLLHUP; tpev_k[s].ptr = ev->data.ptr;
+			tpev_k_used[s] = 1; tpev_k_epfd[s] = epfd; tpev_k_fd[s] = fd;
+			tpev_k_events[s] = ev->events | EPOLLERR | EPOLLHUP; tpev_k_ptr[s] = ev->data.ptr;
 			break;
 		case EPOLL_CTL_MOD:
 			if (s < 0) { e = ENOENT; break; }
-			tpev_k[s].events = ev->events | EPOLLERR | EPOLLHUP; tpev_k[s].ptr = ev->data.ptr;
+			tpev_k_events[s] = ev->events | EPOLLERR | EPOLLHUP; tpev_k_ptr[s] = ev->data.ptr;
 			break;
 		case EPOLL_CTL_DEL:
 			if (s < 0) { e = ENOENT; break; }
-			tpev_k[s].used = 0;
+			tpev_k_used[s] = 0;
 			break;
 		default:
 			e = EINVAL;
 		}
 	}
-	l->err = e; l->ret = e ? -1 : 0;
+	tpev_lc_err[k] = e; tpev_lc_ret[k] = e ? -1 : 0;
 	if (e) { errno = e; return (-1); }
 	return (0);
 }
@@ -167,13 +172,14 @@ static int v_epoll_wait(int epfd, struct epoll_event *evs, int maxevents, int ti
 	if (cnt == -1) { V_ASSUME(TPEV_IN.wait[k].err > 0 && TPEV_IN.wait[k].err < 4096); errno = TPEV_IN.wait[k].err; return (-1); }
 	if (cnt == 0) return (0);
 	V_ASSUME(tpev_deliver_ptr != NULL);
-	void *want = (epfd == tpev_deliver_epfd) ? tpev_deliver_ptr : tpev_pvt_ptr;
+	void *want = tpev_deliver_ptr;
+	if (epfd != tpev_deliver_epfd) want = tpev_pvt_ptr;
 	int s = -1;
-	for (int i = 0; i < TPEV_KSLOTS; i++) if (tpev_k[i].used && tpev_k[i].epfd == epfd && tpev_k[i].ptr == want) s = i;
+	for (int i = 0; i < TPEV_KSLOTS; i++) if (tpev_k_used[i] && tpev_k_epfd[i] == epfd && tpev_k_ptr[i] == want) s = i;
 	V_ASSUME(s >= 0);	/* only registered descriptors are reported */
-	uint32_t rep = TPEV_IN.wait[k].events & tpev_k[s].events & ~TPEV_EP_PRIVATE;
+	uint32_t rep = TPEV_IN.wait[k].events & tpev_k_events[s] & ~TPEV_EP_PRIVATE;
 	V_ASSUME(rep != 0);	/* silent after a one-shot report, silent without readiness */
-	if (tpev_k[s].events & EPOLLONESHOT) tpev_k[s].events &= TPEV_EP_PRIVATE;
+	if (tpev_k_events[s] & EPOLLONESHOT) tpev_k_events[s] &= TPEV_EP_PRIVATE;
 	evs[0].events = rep;
 	evs[0].data.ptr = want;
 	tpev_last_ptr[k] = want; tpev_last_rep[k] = rep;
@@ -189,11 +195,12 @@ static int tpev_new_fd(int k, int is_pidfd) {
 	}
 	V_ASSUME(fd > 0 && !tpev_fd_in_use(fd));	/* a fresh descriptor; 0..2 are open */
 	int s;
-	for (s = 0; s < TPEV_TSLOTS && tpev_t[s].open; s++) ;
+	for (s = 0; s < TPEV_TSLOTS && tpev_t_open[s]; s++) ;
 	V_ASSERT(s < TPEV_TSLOTS, "call budget: open timerfd/pidfd");
 	if (s >= TPEV_TSLOTS) exit(5);
-	memset(&tpev_t[s], 0, sizeof(tpev_t[s]));
-	tpev_t[s].open = 1; tpev_t[s].fd = fd; tpev_t[s].is_pidfd = is_pidfd;
+	tpev_t_open[s] = 1; tpev_t_fd[s] = fd; tpev_t_is_pidfd[s] = is_pidfd;
+	tpev_t_clock[s] = 0; tpev_t_cflags[s] = 0; tpev_t_set_flags[s] = 0; tpev_t_set_cnt[s] = 0;
+	tpev_t_val_sec[s] = 0; tpev_t_val_nsec[s] = 0; tpev_t_int_sec[s] = 0; tpev_t_int_nsec[s] = 0;
 	return (fd);
 }
 
@@ -201,10 +208,10 @@ static int v_timerfd_create(int clockid, int flags) {
 	int k = tpev_n_cre++;
 	V_ASSERT(k < TPEV_NCRE, "call budget: timerfd_create");
 	if (k >= TPEV_NCRE) exit(5);
-	tpev_log_cre[k].is_pidfd = 0; tpev_log_cre[k].clock = clockid; tpev_log_cre[k].flags = flags;
+	tpev_lcre_is_pidfd[k] = 0; tpev_lcre_clock[k] = clockid; tpev_lcre_flags[k] = flags;
 	int fd = tpev_new_fd(k, 0);
-	tpev_log_cre[k].ret = fd;
-	if (fd >= 0) { int s = tpev_t_find(fd); tpev_t[s].clock = clockid; tpev_t[s].cflags = flags; }
+	tpev_lcre_ret[k] = fd;
+	if (fd >= 0) { int s = tpev_t_find(fd); tpev_t_clock[s] = clockid; tpev_t_cflags[s] = flags; }
 	return (fd);
 }
 
@@ -218,9 +225,9 @@ static long v_syscall(long nr, ...) {	/* only pidfd_open() is issued through sys
 	V_ASSERT(k < TPEV_NCRE, "call budget: pidfd_open");
 	if (k >= TPEV_NCRE) exit(5);
 	V_ASSERT(nr == SYS_pidfd_open, "only pidfd_open goes through syscall()");
-	tpev_log_cre[k].is_pidfd = 1; tpev_log_cre[k].pid = pid; tpev_log_cre[k].flags = (int)flags;
+	tpev_lcre_is_pidfd[k] = 1; tpev_lcre_pid[k] = pid; tpev_lcre_flags[k] = (int)flags;
 	int fd = tpev_new_fd(k, 1);
-	tpev_log_cre[k].ret = fd;
+	tpev_lcre_ret[k] = fd;
 	return (fd);
 }
 
@@ -232,16 +239,19 @@ static int v_timerfd_settime(int fd, int flags, const struct itimerspec *nv, str
 	int k = tpev_n_set++;
 	V_ASSERT(k < TPEV_NSET, "call budget: timerfd_settime");
 	if (k >= TPEV_NSET) exit(5);
-	struct tpev_set_log_s *l = &tpev_log_set[k];
-	l->fd = fd; l->flags = flags; l->v = *nv; l->has_old = (ov != NULL);
+	tpev_ls_fd[k] = fd; tpev_ls_flags[k] = flags; tpev_ls_has_old[k] = (ov != NULL);
+	tpev_ls_val_sec[k] = nv->it_value.tv_sec; tpev_ls_val_nsec[k] = nv->it_value.tv_nsec;
+	tpev_ls_int_sec[k] = nv->it_interval.tv_sec; tpev_ls_int_nsec[k] = nv->it_interval.tv_nsec;
 	int e = 0, s = tpev_t_find(fd), inj = TPEV_IN.set_err[k];
-	if (s < 0 || tpev_t[s].is_pidfd) e = (s < 0) ? EBADF : EINVAL;
+	if (s < 0 || tpev_t_is_pidfd[s]) e = (s < 0) ? EBADF : EINVAL;
 	else if (!tpev_ts_valid(&nv->it_value) || !tpev_ts_valid(&nv->it_interval)) e = EINVAL;
 	else if (flags & ~(TFD_TIMER_ABSTIME | TFD_TIMER_CANCEL_ON_SET)) e = EINVAL;
 	else if (inj != 0) { V_ASSUME(inj > 0 && inj < 4096); e = inj; }
-	l->ret = e ? -1 : 0;
+	tpev_ls_ret[k] = e ? -1 : 0;
 	if (e) { errno = e; return (-1); }
-	tpev_t[s].spec = *nv; tpev_t[s].set_flags = flags; tpev_t[s].set_cnt++;
+	tpev_t_val_sec[s] = nv->it_value.tv_sec; tpev_t_val_nsec[s] = nv->it_value.tv_nsec;
+	tpev_t_int_sec[s] = nv->it_interval.tv_sec; tpev_t_int_nsec[s] = nv->it_interval.tv_nsec;
+	tpev_t_set_flags[s] = flags; tpev_t_set_cnt[s]++;
 	return (0);
 }
 
@@ -251,10 +261,10 @@ static int v_close(int fd) {
 	if (k >= TPEV_NCLOSE) exit(5);
 	tpev_log_close[k] = fd;
 	int s = tpev_t_find(fd), known = (s >= 0);
-	if (s >= 0) tpev_t[s].open = 0;
+	if (s >= 0) tpev_t_open[s] = 0;
 	for (int i = 0; i < 4; i++) if (tpev_user_fd[i] == fd) { tpev_user_fd[i] = -1; known = 1; }
 	if (!known) { errno = EBADF; return (-1); }
-	for (int i = 0; i < TPEV_KSLOTS; i++) if (tpev_k[i].used && tpev_k[i].fd == fd) tpev_k[i].used = 0;
+	for (int i = 0; i < TPEV_KSLOTS; i++) if (tpev_k_used[i] && tpev_k_fd[i] == fd) tpev_k_used[i] = 0;
 	return (0);
 }
 
@@ -345,17 +355,21 @@ static tpt_p tpev_tpt, tpev_pvt;
 
 static void tpev_on_wait_exhausted(void) { tpev_tpt->state = TP_THREAD_STATE_STOP; }
 
+/* Static objects (not one calloc block as in tp_create): CBMC propagates constants through fields of static objects
+ * but not of heap objects, and e.g. a non-constant tpt->io_fd made every delivery 4x more expensive [measured].
+ * The code under test reaches the threads only through tp->pvt / tp_udata->tpt, never through tp->threads[]. */
+static tp_t tpev_tp_obj;
+static tp_thread_t tpev_thr_obj[2];
+
 static void tpev_env_init(uint32_t s_flags) {
-	size_t sz = sizeof(tp_t) + 2 * sizeof(tp_thread_t);
-	tpev_tp = (tp_p)v_alloc(sz);
-	memset(tpev_tp, 0, sz);
+	tpev_tp = &tpev_tp_obj;
 	tpev_tp->s.flags = s_flags;
 	tpev_tp->s.threads_max = 1;
 	tpev_tp->cpu_count = 1;
 	tpev_tp->fd_count = TPEV_FD_COUNT;
 	tpev_tp->threads_cnt = 1;
-	tpev_pvt = &tpev_tp->threads[1];
-	tpev_tpt = &tpev_tp->threads[0];
+	tpev_pvt = &tpev_thr_obj[1];
+	tpev_tpt = &tpev_thr_obj[0];
 	tpev_tp->pvt = tpev_pvt;
 	tpev_pvt->tp = tpev_tp; tpev_pvt->io_fd = TPEV_EPFD_PVT; tpev_pvt->cpu_id = -1; tpev_pvt->thread_num = 1;
 	tpev_pvt->state = TP_THREAD_STATE_RUNNING;
@@ -365,9 +379,9 @@ static void tpev_env_init(uint32_t s_flags) {
 	tpev_tpt->pvt_udata.cb_func = NULL;
 	tpev_tpt->pvt_udata.ident = TPEV_EPFD_PVT;
 	tpev_tpt->pvt_udata.tpt = tpev_tpt;
-	tpev_k[0].used = 1; tpev_k[0].epfd = TPEV_EPFD; tpev_k[0].fd = TPEV_EPFD_PVT;
-	tpev_k[0].events = EPOLLHUP | EPOLLERR | EPOLLIN | EPOLLRDHUP | EPOLLPRI;
-	tpev_k[0].ptr = &tpev_tpt->pvt_udata;
+	tpev_k_used[0] = 1; tpev_k_epfd[0] = TPEV_EPFD; tpev_k_fd[0] = TPEV_EPFD_PVT;
+	tpev_k_events[0] = EPOLLHUP | EPOLLERR | EPOLLIN | EPOLLRDHUP | EPOLLPRI;
+	tpev_k_ptr[0] = &tpev_tpt->pvt_udata;
 	tpev_pvt_ptr = &tpev_tpt->pvt_udata;
 	V_ASSUME(TPEV_IN.errno0 >= 0 && TPEV_IN.errno0 < 4096);
 	errno = TPEV_IN.errno0;
